@@ -30,3 +30,9 @@ Require Import GM.model.HtmlI.
 Definition ConvertModel (cfg : rcfg) (src : bytes) : result bytes :=
   t <- ParseTree src ;;
   RenderHTML cfg src t.
+
+(* the hypothesis the inline phase relies on, as a boolean evaluated in the correspondence runs:
+   the lines of every inline-bearing block are non-empty, inside the source, without padding
+   or forced newline, and in source order *)
+Definition ParseLinesOk (src : bytes) : result bool :=
+  x <- ParseBlocksTree src ;; Ok (tree_lines_ok src (fst x)).
